@@ -54,7 +54,13 @@ PRELUDE = [
      [S("probe"), Q(S("in-lib"))],
      [S("if"), [S("="), S("what"), 3], [S("error"), Q(S("lib-last")), 1], Q(S("lib-done"))]],
     [S("defun"), S("lib-tail"), [S("n"), S("what")], [S("user:inc")], [S("if"), [S("<="), S("n"), 0], [S("lib-fail"), S("what")], [S("lib-tail"), [S("-"), S("n"), 1], S("what")]]],
-    [S("export"), Q(S("lib-fail")), Q(S("lib-tail"))],
+    # functions and a macro of another package with NO body form at all (and one with a docstring only): the package
+    # swap made for the call is undone on that exit path too
+    [S("defun"), S("lib-noop"), []],
+    [S("defun"), S("lib-hook"), [S("&rest"), S("args")]],
+    [S("defun"), S("lib-doc"), [], STR("only a docstring")],
+    [S("defmacro"), S("lib-nomacro"), []],
+    [S("export"), Q(S("lib-fail")), Q(S("lib-tail")), Q(S("lib-noop")), Q(S("lib-hook")), Q(S("lib-doc")), Q(S("lib-nomacro"))],
     [S("in-package"), Q(S("user"))],
 ]
 STATE = [S("probe"), Q(S("state")), S("counter")]
@@ -101,6 +107,15 @@ def pool(rnd):
         lambda: ([[S("lib:lib-fail"), rnd.randrange(5)]], "load"),
         lambda: ([[S("lib:lib-fail"), rnd.randrange(5)]], "call"),
         lambda: ([[S("lib:lib-tail"), rnd.randrange(3), rnd.randrange(5)]], "call"),
+        # empty-bodied functions / macro of another package, then things that depend on the current package
+        lambda: ([[S("lib:lib-noop")], [S("inc")], [S("set"), Q(S("marker3")), 3], [S("probe"), Q(S("m3")), S("marker3")], STATE], "load"),
+        lambda: ([[S("list"), [S("lib:lib-hook"), 1, 2], [S("lib:lib-doc")], [S("inc")]], [S("defun"), S("made-after"), [], [S("inc")]], [S("probe"), Q(S("made")), [S("made-after")]], STATE], "load"),
+        lambda: ([[S("map"), Q(S("list")), S("lib:lib-hook"), Q([1, 2])], [S("funcall"), S("lib:lib-noop")], [S("apply"), S("lib:lib-hook"), Q([1])], [S("inc")], STATE], "load"),
+        lambda: ([[S("lib:lib-nomacro")], [S("inc")], STATE], "load"),
+        lambda: ([[S("ignore-errors"), [S("lib:lib-noop")], [S("error"), Q(S("after-noop")), 1]], [S("inc")], STATE], "load"),
+        lambda: ([[S("lib:lib-noop")]], "call"),
+        lambda: ([[S("lib:lib-hook"), 1]], "call"),
+        lambda: ([[S("lib:lib-nomacro")]], "call"),
         # other entry points: FunCallContext, MacroCall, SpecialOpCall
         lambda: ([[S("deep"), rnd.randrange(4), rnd.randrange(3)]], "call"),
         lambda: ([[S("tailfail"), rnd.randrange(3), rnd.randrange(2)]], "call"),
